@@ -105,6 +105,18 @@ class Ctx:
     def one(self, rid, suffix):
         """The unique function with this normalised-path suffix, else raise Anchor."""
         fs = self.prog.find(suffix)
+        if len(fs) == 0:
+            # a function of the pinned tree that was inlined into its only caller and deleted: its code now
+            # lives in that caller - look there (site-based rules find their sites; anything else fails closed)
+            from normalise import load_pin
+
+            info = load_pin().get("fn_info") or {}
+            pinned = [k for k in info if k == suffix or k.endswith("::" + suffix)]
+            if len(pinned) == 1:
+                alive = [c for c in info[pinned[0]].get("callers", []) if c in self.prog.by_norm and c != pinned[0]]
+                if len(alive) == 1:
+                    self.stats.setdefault("anchor_fallbacks", []).append({"missing": pinned[0], "looked_in_caller": alive[0], "rule": rid})
+                    return self.prog.by_norm[alive[0]]
         if len(fs) != 1:
             raise Anchor(rid, "%s (%d matches)" % (suffix, len(fs)))
         return fs[0]
@@ -197,6 +209,7 @@ def finish(prop, ctx, insts, reports, wall, explanation, not_decided, extra=None
         "functions_analysed": ctx.stats.get("functions"),
         "positive_controls": ctx.stats.get("positive_controls"),
         "normalisation": getattr(ctx, "normalised", {}),
+        "anchor_fallbacks": ctx.stats.get("anchor_fallbacks", []),
         "tree_hash": ctx.tree_hash,
         "known_findings_matched": matched_known,
         "checker_cmd": "./check %s --tier %s" % (prop, ctx.tier),
